@@ -71,6 +71,10 @@ type vfHandlerOpts struct {
 	CacheBytes   int  // KAFSCALE_CACHE_BYTES (0 = default)
 	ReadAhead    int  // KAFSCALE_READAHEAD_SEGMENTS (-1 = default)
 	NoAutoCreate bool // KAFSCALE_AUTO_CREATE_TOPICS=false
+	// NoS3Backpressure raises the S3 health thresholds out of reach so that injected S3
+	// failures do not switch the handler into (retriable) backpressure mode; that mode is
+	// C25's subject and would otherwise mask durability checks behind a 60 s window.
+	NoS3Backpressure bool
 }
 
 // vfNewHandler builds the real broker handler over the given store and S3 model.
@@ -100,6 +104,20 @@ func vfNewHandler(store metadata.Store, obj *vfkit.ObjStore, o vfHandlerOpts) *h
 		os.Setenv("KAFSCALE_AUTO_CREATE_TOPICS", "false")
 	} else {
 		os.Unsetenv("KAFSCALE_AUTO_CREATE_TOPICS")
+	}
+	for _, k := range []string{"KAFSCALE_S3_ERROR_RATE_WARN", "KAFSCALE_S3_ERROR_RATE_CRIT"} {
+		if o.NoS3Backpressure {
+			os.Setenv(k, "2")
+		} else {
+			os.Unsetenv(k)
+		}
+	}
+	for _, k := range []string{"KAFSCALE_S3_LATENCY_WARN_MS", "KAFSCALE_S3_LATENCY_CRIT_MS"} {
+		if o.NoS3Backpressure {
+			os.Setenv(k, "3600000")
+		} else {
+			os.Unsetenv(k)
+		}
 	}
 	os.Unsetenv("KAFSCALE_ACL_ENABLED")
 	brokerInfo := protocol.MetadataBroker{NodeID: 1, Host: "localhost", Port: 19092}
